@@ -298,7 +298,7 @@ class Exec:
             self.assume(g)
         elif kind == "let":
             name, _, ex = body.partition("=")
-            self.st.ghostvars[name.strip()] = self.eval_clause(ex, cenv, None)
+            self.st.ghostvars[name.strip()] = self.eval_clause(ex, cenv, NORESULT)
         else:
             raise Unsupported("ghost statement " + cl)
 
